@@ -6,6 +6,7 @@ Six TLA+ modules, each explored by TLC and replayed on the real objects:
   CovCache       optimised covariance evaluations on one Model -> vs pairwise loop / fresh Model
   NeighMemo      select() histories of a moving neighbourhood  -> vs freshly built neighbourhood
   CowVector      copy / modify histories of VectorT            -> vs value semantics computed by TLC
+  ModelEdit      add / delete / filter structures of a Model   -> vs value semantics computed by TLC and a fresh Model
   Globals        (prefix, observed) call pairs                 -> two fresh processes, bit-identical
 TLC checks the property on the intended protocol / the algorithm against its definition, predicts
 the histories on which the transcription of the code would break it, and emits every history as a
@@ -126,12 +127,46 @@ def run(tier):
         for ob in o["obs"]:
             nsel += 1
             if not ob["equal"]:
-                ck.disagree({"module": "NeighMemo", "after": [h["op"] for h in sc["hist"][:ob["step"] - 1]]},
+                ck.disagree({"module": "NeighMemo", "layout": sc.get("layout", "plain"), "after": [h["op"] for h in sc["hist"][:ob["step"] - 1]]},
                             {"script": sc, "observation": ob})
     nscripts += len(scripts)
+    if not any(sc.get("layout") == "sectors" for sc in scripts):
+        raise Broken("NeighMemo: no history in the sectors layout")
     ck.cov["neighmemo_histories"] = len(scripts); ck.cov["neighmemo_selects"] = nsel
     ck.sample({"module": "NeighMemo", "script": scripts[len(scripts) // 2]})
     log("[C10] NeighMemo: %d states, %d histories, %d selects" % (res.distinct, len(scripts), nsel))
+
+    # ---------------------------------------------------------------- ModelEdit
+    c = cfg(ck, "me.cfg", "SPECIFICATION Spec\nCONSTANTS\n  MaxLen = %d\n  MaxCov = 3\nINVARIANTS Agree Distinct\nCONSTRAINT EmitScripts\nCHECK_DEADLOCK FALSE\n"
+            % (5 if thorough else 4))
+    res = vlib.run_tlc("ModelEdit", c, workers=8, timeout=3000)
+    if res.violation:
+        raise Broken("ModelEdit: the transcription of the parallel vectors violates value semantics in the model:\n" + res.violation)
+    states += res.distinct; trans += res.generated
+    scripts = res.emitted
+    obs = replay(ck, exe, "modeledit", scripts, "me")
+    nme = 0
+    for o in obs:
+        if "crash" in o:
+            ck.disagree({"module": "ModelEdit", "kind": "crash"}, o); continue
+        sc = scripts[o["idx"]]
+        for k, st in enumerate(sc["hist"]):
+            nme += 1
+            got, fresh, exp = o["obs"][k]["got"], o["obs"][k]["fresh"], st["expect"]
+            fails = []
+            if got != exp:
+                fails.append("differs-from-specification")
+            if got != fresh:
+                fails.append("differs-from-fresh-model")
+            if fails:
+                ck.disagree({"module": "ModelEdit", "op": st["op"], "fails": fails, "after": [h["op"] for h in sc["hist"][:k]]},
+                            {"script": sc, "step": k, "observed": got, "fresh": fresh, "expected": exp})
+    if nme == 0 or not any(st["op"] == "del" and any(c["f"] for c in st["expect"]["content"]) for sc in scripts for st in sc["hist"]):
+        raise Broken("ModelEdit: no deletion in a model holding a filtered structure")
+    nscripts += len(scripts)
+    ck.cov["modeledit_histories"] = len(scripts); ck.cov["modeledit_steps_compared"] = nme
+    ck.sample({"module": "ModelEdit", "script": scripts[len(scripts) // 2]})
+    log("[C10] ModelEdit: %d states, %d histories, %d steps compared" % (res.distinct, len(scripts), nme))
 
     # ---------------------------------------------------------------- CowVector
     c = cfg(ck, "cow.cfg", "SPECIFICATION Spec\nCONSTANTS\n  MaxLen = 2\n  MaxSize = 3\nINVARIANT Agree\nPROPERTY Isolation\n"
@@ -156,10 +191,15 @@ def run(tier):
         for cls, ob in o["obs"].items():
             for k, st in enumerate(sc["hist"]):
                 nst += 1
-                if ob[k] != st["expect"]:
-                    ck.disagree({"module": "CowVector", "class": cls, "op": st["op"], "method": st.get("m")},
+                # (-1 in the expectation = any value: result of a random in-place helper)
+                exp = st["expect"]
+                same = set(ob[k]) == set(exp) and all(len(ob[k][h]) == len(exp[h]) and all(e == -1 or e == v for e, v in zip(exp[h], ob[k][h])) for h in exp)
+                if not same:
+                    ck.disagree({"module": "CowVector", "class": cls, "op": st["op"], "method": st.get("m") or st.get("k")},
                                 {"script": sc, "step": k, "observed": ob[k], "expected": st["expect"]})
     nscripts += len(scripts)
+    if not any(st["op"] == "helper" for sc in scripts for st in sc["hist"]):
+        raise Broken("CowVector: no in-place helper in the histories")
     ck.cov["cow_histories"] = len(scripts); ck.cov["cow_steps_compared"] = nst
     ck.sample({"module": "CowVector", "script": scripts[len(scripts) // 2]})
     log("[C10] CowVector: %d histories, %d steps compared" % (len(scripts), nst))
